@@ -29,16 +29,16 @@ const (
 
 var ModeNames = []string{"text", "pretty", "pretty+quiet", "binary"}
 
-func NewWriterMode(mode int, out *bytes.Buffer) ion.Writer {
+func NewWriterMode(mode int, out *bytes.Buffer, ssts ...ion.SharedSymbolTable) ion.Writer {
 	switch mode {
 	case ModeText:
-		return ion.NewTextWriter(out)
+		return ion.NewTextWriter(out, ssts...)
 	case ModePretty:
-		return ion.NewTextWriterOpts(out, ion.TextWriterPretty)
+		return ion.NewTextWriterOpts(out, ion.TextWriterPretty, ssts...)
 	case ModePrettyQuiet:
-		return ion.NewTextWriterOpts(out, ion.TextWriterPretty|ion.TextWriterQuietFinish)
+		return ion.NewTextWriterOpts(out, ion.TextWriterPretty|ion.TextWriterQuietFinish, ssts...)
 	default:
-		return ion.NewBinaryWriter(out)
+		return ion.NewBinaryWriter(out, ssts...)
 	}
 }
 
@@ -49,6 +49,22 @@ type WriteCase struct {
 	IntVia   int            `json:"int_via,omitempty"`
 	Vals     []*model.Value `json:"vals"`
 	Shown    string         `json:"shown"`
+	// Shared: the writer is constructed with these shared symbol tables (and the readers get them
+	// in their catalog). FinishEvery > 0: Finish is also called after every that many top-level
+	// values, so the stream consists of several batches written by one Writer.
+	Shared      []SymImport `json:"shared_tables,omitempty"`
+	FinishEvery int         `json:"finish_every,omitempty"`
+}
+
+func (k WriteCase) variant() string {
+	s := ""
+	if len(k.Shared) > 0 {
+		s += "+imports"
+	}
+	if k.FinishEvery > 0 {
+		s += "+batches"
+	}
+	return s
 }
 
 // writeOnce writes vals in the mode and returns the output bytes, or the writer's error.
@@ -59,9 +75,24 @@ func writeOnce(k WriteCase) (out []byte, werr error, panicMsg string) {
 		}
 	}()
 	var buf bytes.Buffer
-	w := NewWriterMode(k.Mode, &buf)
+	var ssts []ion.SharedSymbolTable
+	for _, t := range k.Shared {
+		ssts = append(ssts, ion.NewSharedSymbolTable(t.Name, t.Version, t.Symbols))
+	}
+	w := NewWriterMode(k.Mode, &buf, ssts...)
 	o := &ionx.WriteOpts{Rnd: rand.New(rand.NewSource(k.CaseSeed)), IntVia: k.IntVia, SymbolFromString: false}
-	if err := ionx.Write(w, k.Vals, o); err != nil {
+	if k.FinishEvery > 0 {
+		for i, v := range k.Vals {
+			if err := ionx.Write(w, []*model.Value{v}, o); err != nil {
+				return nil, err, ""
+			}
+			if (i+1)%k.FinishEvery == 0 && i+1 < len(k.Vals) {
+				if err := w.Finish(); err != nil {
+					return nil, fmt.Errorf("Finish (batch): %w", err), ""
+				}
+			}
+		}
+	} else if err := ionx.Write(w, k.Vals, o); err != nil {
 		return nil, err, ""
 	}
 	if err := w.Finish(); err != nil {
@@ -73,6 +104,10 @@ func writeOnce(k WriteCase) (out []byte, werr error, panicMsg string) {
 // judgeC01 reads the output back with ion-go's own Reader.
 func judgeC01(k WriteCase, out []byte) string {
 	obs := ionx.ReadAll(out)
+	if len(k.Shared) > 0 {
+		_, ic := catalogOf(k.Shared)
+		obs = ionx.ReadAllCat(out, ic)
+	}
 	if obs.Panic != "" {
 		return "reader panic: " + obs.Panic
 	}
@@ -92,10 +127,11 @@ func judgeC01(k WriteCase, out []byte) string {
 func judgeC04(k WriteCase, out []byte) string {
 	var got []*model.Value
 	var err error
+	rc, _ := catalogOf(k.Shared)
 	if k.Mode == ModeBinary {
-		got, err = refbin.Decode(out, nil)
+		got, err = refbin.Decode(out, &refbin.DecodeOpts{Catalog: rc})
 	} else {
-		got, err = reftext.Parse(string(out), nil)
+		got, err = reftext.Parse(string(out), &reftext.ParseOpts{Catalog: rc})
 	}
 	if err != nil {
 		return "reference decoder rejects the output: " + err.Error()
@@ -157,8 +193,8 @@ func runWriteCase(c *Ctx, sub string, k WriteCase, judge func(WriteCase, []byte)
 		kk, o2, v2 = k, out, verdict
 	}
 	kk.Shown = showBytes(kk.Mode, o2)
-	fp := ModeFamily(k.Mode) + ":" + Shape(kk.Vals) + ":" + Class(v2)
-	c.Violate(sub, fp, fmt.Sprintf("mode=%s values=%s output=%s :: %s", ModeNames[k.Mode], model.FmtAll(kk.Vals), kk.Shown, v2), kk, feats)
+	fp := ModeFamily(k.Mode) + k.variant() + ":" + Shape(kk.Vals) + ":" + Class(v2)
+	c.Violate(sub, fp, fmt.Sprintf("mode=%s%s values=%s output=%s :: %s", ModeNames[k.Mode], k.variant(), model.FmtAll(kk.Vals), kk.Shown, v2), kk, feats)
 	return true
 }
 
@@ -298,6 +334,9 @@ func GridCases(thorough bool) []WriteCase {
 		add(0, model.StructV(model.Int64V(1).WithField(model.T(t))))
 		add(0, model.SexpV(model.SymV(model.T(t)), model.SymV(model.T(t))))
 	}
+	for _, vs := range LookalikeStreams() {
+		add(0, vs...)
+	}
 	// a top-level symbol whose text is the version-marker text (text modes: it has to be quoted;
 	// in binary a top-level symbol with that id is left out, its status is not settled)
 	for _, m := range []int{ModeText, ModePretty} {
@@ -345,6 +384,26 @@ func runWriteMonitor(c *Ctx, sub string, judge func(WriteCase, []byte) string) {
 				}
 			}
 		}
+		// the same stream through writers constructed with shared symbol tables and/or finished
+		// in several batches
+		r := rand.New(rand.NewSource(cs ^ 0x5bd1e995))
+		for rep := 0; rep < 3; rep++ {
+			k := WriteCase{CaseSeed: cs, Mode: []int{ModeText, ModePretty, ModeBinary}[(i+rep)%3], Vals: vals}
+			if rep != 1 {
+				k.Shared = sharedFor(r, vals)
+			}
+			if rep != 0 && len(vals) > 1 {
+				k.FinishEvery = 1 + r.Intn(3)
+			}
+			if len(k.Shared) == 0 && k.FinishEvery == 0 {
+				continue
+			}
+			c.Feat1("writer" + k.variant())
+			c.JournalCase(w, fmt.Sprintf("%s case_seed=%d mode=%d%s", sub, cs, k.Mode, k.variant()))
+			if runWriteCase(c, sub, k, judge, featList(g.Feat)) && nt {
+				c.NonTrivial(fmt.Sprintf("%d%s|%s", k.Mode, k.variant(), model.FmtAll(vals)))
+			}
+		}
 		if i < 3 {
 			c.Sample(map[string]interface{}{"values": model.FmtAll(vals), "modes": ModeNames})
 		}
@@ -363,6 +422,34 @@ func runWriteMonitor(c *Ctx, sub string, judge func(WriteCase, []byte) string) {
 	if accepted == 0 {
 		c.Inconclusive("no stream was accepted by the writer")
 	}
+}
+
+// sharedFor derives one or two shared tables that carry some of the stream's symbol texts (and
+// some texts it does not use, and a text in both tables).
+func sharedFor(r *rand.Rand, vals []*model.Value) []SymImport {
+	texts := model.SymbolTexts(vals)
+	var a, b []string
+	for _, t := range texts {
+		if t == "" {
+			continue
+		}
+		switch r.Intn(4) {
+		case 0:
+			a = append(a, t)
+		case 1:
+			b = append(b, t)
+		case 2:
+			a = append(a, t)
+			b = append(b, t)
+		}
+	}
+	a = append(a, "only_in_shared_a")
+	out := []SymImport{{Name: "sa", Version: 1 + r.Intn(3), Symbols: a, MaxID: -1}}
+	if r.Intn(2) == 0 {
+		b = append([]string{"only_in_shared_b"}, b...)
+		out = append(out, SymImport{Name: "sb", Version: 1, Symbols: b, MaxID: -1})
+	}
+	return out
 }
 
 func replayWrite(judge func(WriteCase, []byte) string) func(c *Ctx, v *Violation) string {
